@@ -35,14 +35,18 @@ ColW(u, cp) == CASE u = "utf16" -> W16(cp) [] u = "char" -> 1 [] u = "byte" -> W
 
 \* ----------------------------------- lines -----------------------------------
 \* Indices are 1-based and denote the boundary BEFORE the code point; Len(t) + 1 is the end.
-RECURSIVE LineStartFrom(_, _, _)
-LineStartFrom(t, i, n) == IF n = 0 THEN i
-                          ELSE IF i > Len(t) THEN 0
-                          ELSE LineStartFrom(t, i + 1, IF t[i] = NL THEN n - 1 ELSE n)
-LineStart(t, n) == LineStartFrom(t, 1, n)          \* 0: the text has no line n (lines count from 0)
-NumLines(t) == 1 + Cardinality({j \in 1..Len(t) : t[j] = NL})
-RECURSIVE NextNL(_, _)
-NextNL(t, i) == IF i > Len(t) \/ t[i] = NL THEN i ELSE NextNL(t, i + 1)
+\* (Written with set comprehensions rather than recursion over the text: documents in recorded
+\* traces are a few hundred code points long.)
+NLs(t) == {j \in 1..Len(t) : t[j] = NL}
+Min(S) == CHOOSE x \in S : \A y \in S : x <= y
+Max(S) == CHOOSE x \in S : \A y \in S : x >= y
+NumLines(t) == 1 + Cardinality(NLs(t))
+\* first index of line n (lines count from 0); 0: the text has no line n
+LineStart(t, n) == IF n = 0 THEN 1
+                   ELSE LET S == NLs(t) IN
+                        IF Cardinality(S) < n THEN 0
+                        ELSE 1 + (CHOOSE j \in S : Cardinality({k \in S : k < j}) = n - 1)
+NextNL(t, i) == LET S == {j \in i..Len(t) : t[j] = NL} IN IF S = {} THEN Len(t) + 1 ELSE Min(S)
 \* end of the line content: before "\n", and before a "\r" that directly precedes it
 ContentEnd(t, s) == LET e == NextNL(t, s) IN IF e <= Len(t) /\ e > s /\ t[e - 1] = CR THEN e - 1 ELSE e
 EndsWithCRLF(t, s) == ContentEnd(t, s) # NextNL(t, s)
@@ -54,12 +58,12 @@ RECURSIVE Walk(_, _, _, _, _)
 Walk(u, t, i, stop, col) == IF i >= stop \/ col <= 0 THEN i ELSE Walk(u, t, i + 1, stop, col - ColW(u, t[i]))
 ToIndexU(u, t, line, col) == LET s == LineStart(t, line) IN Walk(u, t, s, ContentEnd(t, s), col)
 ToIndex(t, line, col) == ToIndexU("utf16", t, line, col)
-RECURSIVE PosWalk(_, _, _, _, _)
-PosWalk(t, j, i, line, col) == IF j >= i THEN <<line, col>>
-                               ELSE IF t[j] = NL THEN PosWalk(t, j + 1, i, line + 1, 0)
-                               ELSE PosWalk(t, j + 1, i, line, col + W16(t[j]))
-ToPos(t, i) == PosWalk(t, 1, i, 0, 0)
-LineUnits(t, s) == PosWalk(t, s, ContentEnd(t, s), 0, 0)[2]     \* UTF-16 length of the line content
+\* UTF-16 code units between two indices of one line
+Units16(t, a, b) == (b - a) + Cardinality({j \in a..(b - 1) : t[j] > 65535})
+\* the line an index is on starts after the last "\n" before it
+LineStartOf(t, i) == LET S == {j \in 1..(i - 1) : t[j] = NL} IN IF S = {} THEN 1 ELSE Max(S) + 1
+ToPos(t, i) == <<Cardinality({j \in 1..(i - 1) : t[j] = NL}), Units16(t, LineStartOf(t, i), i)>>
+LineUnits(t, s) == Units16(t, s, ContentEnd(t, s))               \* UTF-16 length of the line content
 
 \* an editor cannot put its cursor between "\r" and "\n"
 CursorOK(t, i) == i \in 1..(Len(t) + 1) /\ ~(i > 1 /\ i <= Len(t) /\ t[i - 1] = CR /\ t[i] = NL)
@@ -92,7 +96,7 @@ FullChange(t) == [full |-> TRUE, l1 |-> 0, c1 |-> 0, l2 |-> 0, c2 |-> 0, text |-
 \* that reports a column past the line end (allowed where the index is the content end)
 Report(t, a, b, new, sa, sb) == LET pa == ToPos(t, a) pb == ToPos(t, b) IN
   [full |-> FALSE, l1 |-> pa[1], c1 |-> pa[2] + sa, l2 |-> pb[1], c2 |-> pb[2] + sb, text |-> new]
-AtContentEnd(t, i) == i = ContentEnd(t, LineStart(t, ToPos(t, i)[1]))
+AtContentEnd(t, i) == i = ContentEnd(t, LineStartOf(t, i))
 
 \* ----------------------------------- state -----------------------------------
 \* d = [editor  : the text the editor holds,
